@@ -375,7 +375,7 @@ fn run_field<N: Fld>(case: &Case, mut o: Obs) -> Outcome {
             // purge_leading may zero coefficients within tol on either side
             let ok = (g[k] - w).norm() <= 8.0 * EPS * w.norm()
                 || (matches!(op, Op::PurgeLeading) && (g[k] - w).norm() <= 1.5 * tol && (g[k].norm() == 0.0 || w.norm() == 0.0))
-                || (matches!(op, Op::MulPoly(..)) && (g[k] - w).norm() <= fft_noise + 1.5 * tol);
+                || (matches!(op, Op::MulPoly(..)) && (g[k] - w).norm() <= fft_noise + if k > q.order() { 1.5 * tol } else { 0.0 });
             if !ok {
                 return o.fail(format!("after step {step} {op:?}: coefficient of x^{k} is {:e}, reference map has {w:e} (scale {mscale:e})", g[k]));
             }
